@@ -139,6 +139,9 @@ Proof.
   destruct (halve_pow2_le f (cs / 2) len Hh) as [_ Hle]. lia.
 Qed.
 
+Lemma halve_fuel_lt : forall cs len, pow2 cs -> 1 < cs -> halve (halve_fuel cs) cs len < cs.
+Proof. intros cs len Hp Hlt. exact (halve_lt _ cs len Hp Hlt). Qed.
+
 (* a size strictly below a power of two m < cs is only reached if m itself was not < len *)
 Lemma halve_below : forall f cs len m, pow2 cs -> pow2 m -> m < cs ->
   halve f cs len < m -> len <= m.
@@ -544,17 +547,16 @@ Proof.
     destruct (c_repeat cfg); cbn [repeats_last_or_always] in Em;
       [exact I | lia | discriminate Em].
   - destruct (m_removed s && is_always (c_repeat cfg) && (m_chunk_size s <? tc_len best)) eqn:E2;
-      inversion H; subst s'; msimpl.
+      injection H as H; subst s'; msimpl.
     + split; [lia|]. split; [exact Hp|]. intros _.
       apply andb_true_iff in E2. destruct E2 as [E2 _].
       apply andb_true_iff in E2. destruct E2 as [Er Em]. split; [exact Er|].
       destruct (c_repeat cfg); cbn [is_always] in Em; [exact I | discriminate Em | discriminate Em].
-    + unfold halve_fuel.
-      destruct (halve_pow2_le (S (Z.to_nat (Z.log2 (m_chunk_size s)))) (m_chunk_size s)
+    + destruct (halve_pow2_le (halve_fuel (m_chunk_size s)) (m_chunk_size s)
                               (tc_len best) Hp) as [Hp' Hle].
-      pose proof (halve_lt (Z.to_nat (Z.log2 (m_chunk_size s))) (m_chunk_size s) (tc_len best)
-                           Hp ltac:(lia)) as Hlt.
-      split; [exact Hle|]. split; [exact Hp'|]. intros Heq. lia.
+      pose proof (halve_fuel_lt (m_chunk_size s) (tc_len best) Hp ltac:(lia)) as Hlt.
+      split; [exact Hle|]. split; [exact Hp'|]. intros Heq.
+      change (halve (halve_fuel (m_chunk_size s)) (m_chunk_size s) (tc_len best) = m_chunk_size s) in Heq. lia.
 Qed.
 
 Lemma decide_never_stops :
@@ -613,4 +615,241 @@ Proof.
   apply (reachable_step_inv mstate (minimize cfg clk no_post) verdict
            (fun st _ => m_phase st = PHead) tc0 file0 st it w (step_inv_ID cfg clk)
            eq_refl Hr).
+Qed.
+
+(* ------------------------------------------------------------------ *)
+(* C14: every candidate of minimize is one block of the size in force *)
+(* ------------------------------------------------------------------ *)
+
+Lemma mnext_no_raw : forall cfg clk st best b s',
+  m_phase st = PHead -> mnext cfg clk no_post st best <> RawWrite b s'.
+Proof.
+  intros cfg clk st best b s' Hph H.
+  destruct (mnext_head_cases cfg clk st best Hph)
+    as [Hm|[(_ & _ & s1 & _ & Hm)|(_ & Hm)]]; rewrite Hm in H.
+  - discriminate H.
+  - destruct (propose_chunk_cases s1 best) as [[e He]|(t & k & Hp)]; rewrite H in *; discriminate.
+  - destruct (propose_chunk_cases (tick st) best) as [[e He]|(t & k & Hp)];
+      rewrite H in *; discriminate.
+Qed.
+
+Section Blocks.
+  Variables (cfg : mcfg) (n0 : Z).
+  Hypothesis Hvalid : valid_cfg cfg.
+  Hypothesis Hmm : c_min cfg <= c_max cfg.
+  Hypothesis Hn0 : 0 <= n0.
+
+  Record BI (st : mstate) (best : tcase) : Prop := {
+    bi_phase : m_phase st = PHead;
+    bi_pow2 : pow2 (m_chunk_size st);
+    bi_max : m_chunk_size st <= eff_max cfg n0;
+    bi_min : m_min_chunk st = Z.min (eff_max cfg n0) (c_min cfg);
+    bi_end : m_chunk_end st <= tc_len best;
+    bi_len : tc_len best <= n0;
+    bi_wf : wf best;
+    bi_small : m_chunk_size st < m_min_chunk st -> tc_len best <= m_min_chunk st
+  }.
+
+  Lemma cmin_pow2 : pow2 (c_min cfg).
+  Proof. apply is_power_of_two_spec. exact (proj1 Hvalid). Qed.
+  Lemma cmax_pow2 : pow2 (c_max cfg).
+  Proof. apply is_power_of_two_spec. exact (proj2 Hvalid). Qed.
+  Lemma eff_pow2 : pow2 (eff_max cfg n0).
+  Proof.
+    unfold eff_max. apply pow2_min; [exact cmax_pow2|]. apply (lpo2st_gen n0 Hn0).
+  Qed.
+  Lemma minchunk_pow2 : pow2 (Z.min (eff_max cfg n0) (c_min cfg)).
+  Proof. apply pow2_min; [exact eff_pow2 | exact cmin_pow2]. Qed.
+
+  Lemma BI_change : forall s best s' t,
+    BI s best -> m_chunk_size s' = m_chunk_size s -> m_min_chunk s' = m_min_chunk s ->
+    m_phase s' = PHead -> wf t -> tc_len t <= tc_len best -> m_chunk_end s' <= tc_len t ->
+    BI s' t.
+  Proof.
+    intros s best s' t HB Hcs Hmin Hph Hwf Hlen Hend.
+    constructor; rewrite ?Hcs, ?Hmin.
+    - exact Hph.
+    - apply (bi_pow2 _ _ HB).
+    - apply (bi_max _ _ HB).
+    - apply (bi_min _ _ HB).
+    - exact Hend.
+    - pose proof (bi_len _ _ HB). lia.
+    - exact Hwf.
+    - intros Hlt. pose proof (bi_small _ _ HB Hlt). lia.
+  Qed.
+
+  Lemma BI_below_min : forall s best,
+    BI s best -> m_chunk_size s < c_min cfg -> tc_len best <= c_min cfg.
+  Proof.
+    intros s best HB Hlt.
+    pose proof (bi_max _ _ HB) as Hmax. pose proof (bi_min _ _ HB) as Hmin.
+    pose proof (bi_len _ _ HB) as Hlen. pose proof (bi_small _ _ HB) as Hsmall.
+    destruct (lpo2st_gen n0 Hn0) as (HLp & HLd & _).
+    unfold eff_max in *.
+    destruct (Z_lt_dec (largest_power_of_two_smaller_than n0) (c_min cfg)) as [HL|HL].
+    - pose proof (pow2_lt_double _ _ HLp cmin_pow2 HL). lia.
+    - lia.
+  Qed.
+
+  Lemma BI_decide : forall s best s',
+    BI s best -> decide_state cfg s best = Some s' ->
+    BI s' best /\ m_chunk_end s' = tc_len best /\ m_chunk_size s' <= m_chunk_size s.
+  Proof.
+    intros s best s' HB Hd.
+    destruct (decide_state_shape cfg s best s' Hd) as (Hmin & Hend & Hph & Hcs).
+    destruct Hcs as [Hcs|[Hgt Hcs]].
+    - split; [|split; [exact Hend | lia]].
+      apply (BI_change s best s' best HB Hcs Hmin Hph (bi_wf _ _ HB)); lia.
+    - pose proof (bi_pow2 _ _ HB) as Hp.
+      destruct (halve_pow2_le (halve_fuel (m_chunk_size s)) (m_chunk_size s) (tc_len best) Hp)
+        as [Hp' Hle].
+      rewrite <- Hcs in Hp', Hle.
+      split; [|split; [exact Hend | exact Hle]].
+      constructor; rewrite ?Hmin.
+      + exact Hph.
+      + exact Hp'.
+      + pose proof (bi_max _ _ HB). lia.
+      + apply (bi_min _ _ HB).
+      + lia.
+      + apply (bi_len _ _ HB).
+      + apply (bi_wf _ _ HB).
+      + intros Hlt. rewrite Hcs in Hlt.
+        apply (halve_below (halve_fuel (m_chunk_size s)) (m_chunk_size s) (tc_len best)
+                 (m_min_chunk s) Hp); [|exact Hgt | exact Hlt].
+        rewrite (bi_min _ _ HB). exact minchunk_pow2.
+  Qed.
+
+  Lemma BI_tick : forall s best, BI s best -> BI (tick s) best.
+  Proof.
+    intros s best HB.
+    apply (BI_change s best (tick s) best HB eq_refl eq_refl eq_refl (bi_wf _ _ HB)).
+    - lia.
+    - apply (bi_end _ _ HB).
+  Qed.
+
+  Definition block_spec (st : mstate) (best t : tcase) (k : outcome -> mstate) : Prop :=
+    exists s e c,
+      rmslice best s e = Ok t /\ 0 <= s < e /\ e <= tc_len best /\
+      pow2 c /\ c <= eff_max cfg n0 /\ c <= m_chunk_size st /\
+      (forall o, m_chunk_size (k o) = c) /\
+      (e - s = c \/ (s = 0 /\ e = tc_len best /\ e < c)) /\
+      (e - s < c_min cfg -> tc_len best <= c_min cfg).
+
+  Lemma BI_propose : forall s best t k,
+    BI s best -> 0 < m_chunk_end s ->
+    (m_chunk_end s - m_chunk_size s < 0 -> m_chunk_end s = tc_len best) ->
+    propose_chunk s best = Propose t k ->
+    block_spec s best t k /\
+    BI (k Skipped) best /\ BI (k (Tested false)) best /\ BI (k (Tested true)) t.
+  Proof.
+    intros s best t k HB Hpos Hfirst Hp.
+    destruct (propose_chunk_shape s best t k Hp) as (Hr & Hk & Hte & Hto).
+    pose proof (bi_pow2 _ _ HB) as Hpw. pose proof (pow2_pos _ Hpw) as Hcs1.
+    pose proof (bi_end _ _ HB) as Hend. pose proof (bi_wf _ _ HB) as Hwf.
+    set (cs := m_chunk_size s) in *. set (ce := m_chunk_end s) in *.
+    set (len := tc_len best) in *.
+    assert (Hs0 : 0 <= Z.max 0 (ce - cs) < ce) by lia.
+    assert (Hc1 : py_clamp len (Z.max 0 (ce - cs)) = Z.max 0 (ce - cs)).
+    { unfold py_clamp. destruct (Z.max 0 (ce - cs) <? 0) eqn:E; lia. }
+    assert (Hc2 : py_clamp len ce = ce).
+    { unfold py_clamp. destruct (ce <? 0) eqn:E; lia. }
+    pose proof (rmslice_spec best _ _ t Hwf Hr) as Hspec. cbv zeta in Hspec.
+    fold len in Hspec. rewrite Hc1, Hc2 in Hspec.
+    destruct (Hspec ltac:(lia)) as (Hwft & _ & _ & _ & Hlent).
+    split; [|split; [|split]].
+    - exists (Z.max 0 (ce - cs)), ce, cs.
+      split; [exact Hr|]. split; [exact Hs0|]. split; [exact Hend|].
+      split; [exact Hpw|]. split; [apply (bi_max _ _ HB)|]. split; [lia|].
+      split; [intros o; apply (Hk o)|]. split.
+      + destruct (Z_lt_dec (ce - cs) 0) as [Hlt|Hge].
+        * right. pose proof (Hfirst Hlt). lia.
+        * left. lia.
+      + intros Hlt. destruct (Z_lt_dec cs (c_min cfg)) as [Hc|Hc].
+        * apply (BI_below_min s best HB Hc).
+        * pose proof (Hfirst ltac:(lia)). lia.
+    - destruct (Hk Skipped) as (H1 & H2 & H3).
+      apply (BI_change s best _ best HB H1 H2 H3 Hwf); [lia|].
+      destruct (Hto Skipped ltac:(discriminate)) as [H|H]; fold cs ce in H; fold len; lia.
+    - destruct (Hk (Tested false)) as (H1 & H2 & H3).
+      apply (BI_change s best _ best HB H1 H2 H3 Hwf); [lia|].
+      destruct (Hto (Tested false) ltac:(discriminate)) as [H|H]; fold cs ce in H; fold len; lia.
+    - destruct (Hk (Tested true)) as (H1 & H2 & H3).
+      apply (BI_change s best _ t HB H1 H2 H3 Hwft); [fold len; lia|].
+      rewrite Hte, Hlent. lia.
+  Qed.
+
+  Lemma BI_mnext : forall clk st best t k,
+    BI st best -> mnext cfg clk no_post st best = Propose t k ->
+    block_spec st best t k /\
+    BI (k Skipped) best /\ BI (k (Tested false)) best /\ BI (k (Tested true)) t.
+  Proof.
+    intros clk st best t k HB Hn.
+    pose proof (BI_tick st best HB) as HBt.
+    pose proof (pow2_pos _ (bi_pow2 _ _ HB)) as Hcs1.
+    pose proof (tc_len_nonneg best (bi_wf _ _ HB)) as Hlen0.
+    destruct (mnext_head_cases cfg clk st best (bi_phase _ _ HB))
+      as [Hm|[(_ & Hne & s' & Hds & Hm)|(Hge & Hm)]]; rewrite Hm in Hn.
+    - discriminate Hn.
+    - destruct (BI_decide (tick st) best s' HBt Hds) as (HB' & Hend' & Hle').
+      destruct (BI_propose s' best t k HB' ltac:(lia) ltac:(intros _; exact Hend') Hn)
+        as ((s0 & e & c & Hb1 & Hb2 & Hb3 & Hb4 & Hb5 & Hb6 & Hb7) & HBk).
+      split; [|exact HBk].
+      exists s0, e, c. split; [exact Hb1|]. split; [exact Hb2|]. split; [exact Hb3|].
+      split; [exact Hb4|]. split; [exact Hb5|]. split; [|exact Hb7].
+      change (m_chunk_size (tick st)) with (m_chunk_size st) in Hle'. lia.
+    - change (m_chunk_end st) with (m_chunk_end (tick st)) in Hge.
+      change (m_chunk_size st) with (m_chunk_size (tick st)) in Hge, Hcs1.
+      destruct (BI_propose (tick st) best t k HBt ltac:(lia) ltac:(lia) Hn) as (Hb & HBk).
+      split; [exact Hb | exact HBk].
+  Qed.
+
+  Lemma BI_step_inv : forall clk, step_inv (minimize cfg clk no_post) BI.
+  Proof.
+    intros clk st best HB. cbn [minimize s_next].
+    destruct (mnext cfg clk no_post st best) as [t k|b s'| |e] eqn:Hn.
+    - apply (BI_mnext clk st best t k HB Hn).
+    - exfalso. exact (mnext_no_raw cfg clk st best b s' (bi_phase _ _ HB) Hn).
+    - exact I.
+    - exact I.
+  Qed.
+End Blocks.
+
+Lemma BI_start : forall cfg clk tc0,
+  valid_cfg cfg -> c_min cfg <= c_max cfg -> wf tc0 ->
+  BI cfg (tc_len tc0) (mstart cfg clk tc0) tc0.
+Proof.
+  intros cfg clk tc0 Hvalid Hmm Hwf.
+  pose proof (tc_len_nonneg tc0 Hwf) as Hn0.
+  pose proof (pow2_pos _ (cmin_pow2 cfg Hvalid)) as Hmin1.
+  constructor; cbn [mstart m_phase m_chunk_size m_min_chunk m_chunk_end].
+  - reflexivity.
+  - apply (eff_pow2 cfg (tc_len tc0) Hvalid Hn0).
+  - unfold eff_max. lia.
+  - unfold eff_max. lia.
+  - lia.
+  - lia.
+  - exact Hwf.
+  - lia.
+Qed.
+
+Lemma minimize_blocks :
+  forall cfg clk verdict tc0 file0 st it w t k,
+    wf tc0 -> valid_cfg cfg -> c_min cfg <= c_max cfg ->
+    reachable (minimize cfg clk no_post) verdict tc0 file0 st it w ->
+    mnext cfg clk no_post st (it_best it) = Propose t k ->
+    exists s e c,
+      rmslice (it_best it) s e = Ok t /\ 0 <= s < e /\ e <= tc_len (it_best it) /\
+      pow2 c /\ c <= eff_max cfg (tc_len tc0) /\ c <= m_chunk_size st /\
+      (forall o, m_chunk_size (k o) = c) /\
+      (e - s = c \/ (s = 0 /\ e = tc_len (it_best it) /\ e < c)) /\
+      (e - s < c_min cfg -> tc_len (it_best it) <= c_min cfg).
+Proof.
+  intros cfg clk verdict tc0 file0 st it w t k Hwf Hvalid Hmm Hr Hn.
+  pose proof (tc_len_nonneg tc0 Hwf) as Hn0.
+  pose proof (reachable_step_inv mstate (minimize cfg clk no_post) verdict
+                (BI cfg (tc_len tc0)) tc0 file0 st it w
+                (BI_step_inv cfg (tc_len tc0) Hvalid Hmm Hn0 clk)
+                (BI_start cfg clk tc0 Hvalid Hmm Hwf) Hr) as HB.
+  destruct (BI_mnext cfg (tc_len tc0) Hvalid Hmm Hn0 clk st (it_best it) t k HB Hn) as [Hb _].
+  exact Hb.
 Qed.
